@@ -229,13 +229,76 @@ pub fn run_impl(s: &Script, serial: usize) -> Vec<String> {
     })
 }
 
+static RETRIES: std::sync::atomic::AtomicUsize = std::sync::atomic::AtomicUsize::new(0);
+
+/// Can this process use loopback TCP / unix-domain sockets at all (plain tokio, no tarpc code)?
+fn sockets_available(unix: bool, serial: usize) -> bool {
+    use tokio::io::{AsyncReadExt, AsyncWriteExt};
+    let rt = match tokio::runtime::Builder::new_current_thread().enable_all().build() {
+        Ok(rt) => rt,
+        Err(_) => return false,
+    };
+    rt.block_on(async {
+        let r = tokio::time::timeout(Duration::from_secs(10), async {
+            if unix {
+                let path = std::env::temp_dir().join(format!("tarpc-verif-probe-{}-{}", std::process::id(), serial));
+                let _ = std::fs::remove_file(&path);
+                let l = tokio::net::UnixListener::bind(&path).ok()?;
+                let (c, a) = tokio::join!(tokio::net::UnixStream::connect(&path), l.accept());
+                let _ = std::fs::remove_file(&path);
+                let (mut c, (mut a, _)) = (c.ok()?, a.ok()?);
+                c.write_all(b"x").await.ok()?;
+                let mut b = [0u8; 1];
+                a.read_exact(&mut b).await.ok()?;
+                Some(())
+            } else {
+                let l = tokio::net::TcpListener::bind("127.0.0.1:0").await.ok()?;
+                let addr = l.local_addr().ok()?;
+                let (c, a) = tokio::join!(tokio::net::TcpStream::connect(addr), l.accept());
+                let (mut c, (mut a, _)) = (c.ok()?, a.ok()?);
+                c.write_all(b"x").await.ok()?;
+                let mut b = [0u8; 1];
+                a.read_exact(&mut b).await.ok()?;
+                Some(())
+            }
+        })
+        .await;
+        matches!(r, Ok(Some(())))
+    })
+}
+
 pub fn to_case(s: &Script, serial: usize) -> Case {
-    let obs = run_impl(s, serial);
+    use std::sync::atomic::Ordering;
+    let mut obs = run_impl(s, serial);
+    let mut no_sockets = false;
+    // The medium is the operating system. A run that could not set its sockets up, or that hit a read
+    // timeout, is repeated (at most twice, and at most six times per process); if plain tokio sockets of
+    // that kind do not work in this process either, the script decides nothing (`KNoSockets`).
+    let mut tries = 0;
+    while obs.iter().any(|o| o.contains("Timeout") || o == "KInfra") {
+        if !sockets_available(s.unix, serial) {
+            obs = vec!["KNoSockets".into()];
+            no_sockets = true;
+            break;
+        }
+        if tries >= 2 || RETRIES.load(Ordering::Relaxed) >= 6 {
+            break;
+        }
+        tries += 1;
+        RETRIES.fetch_add(1, Ordering::Relaxed);
+        obs = run_impl(s, serial + 100_000 * tries);
+    }
     let mut tags: Vec<String> = vec![
-        if s.unix { "unix".into() } else { "tcp".into() },
+        if s.unix { "unix".to_string() } else { "tcp".to_string() },
         if s.json { "json".into() } else { "bincode".into() },
         format!("length-field:{}", s.lf),
     ];
+    if no_sockets {
+        tags.push("NO-SOCKETS-IN-THIS-SANDBOX".into());
+    }
+    if tries > 0 {
+        tags.push("retried".into());
+    }
     if s.lf != 4 || s.le || s.mf != 8 * 1024 * 1024 {
         tags.push("custom-framing".into());
     }
